@@ -4,12 +4,14 @@ tie: H (hand-written executable Gallina model coq/C08/GridEdit.v of the t2grid e
   * correspondence: op-sequence differential testing of the extracted model against the REAL
     t2grid through its public methods; the canonical dump of the whole grid is compared after
     every step (exhaustive short sequences from several start grids + random long sequences on
-    grids built by t2grid().fromgeo(mulgrid().rectangular(...))).
+    grids built by t2grid().fromgeo(mulgrid().rectangular(...))).  minc / __add__ / embed are part of
+    the alphabet: a case may hold a second grid (`x` edits build it) that is added to / embedded
+    in the main one; then both grids are dumped after every step (they share objects).
   * oracle: the property statement (`Inv`, written here in Python against the public attributes
     block/blocklist/connection/connectionlist/rocktype/rocktypelist/block.connection_name/
     block.rocktype) is evaluated on the real object after every step, independently of the model.
 """
-import os, sys, json, itertools, random, re, zlib, time, traceback
+import os, sys, io, json, itertools, random, re, zlib, time, traceback, contextlib
 from collections import Counter
 import vf
 
@@ -21,6 +23,9 @@ RK = ['rock1', 'rock2']
 VOL = 1000.0
 NAME_OK = re.compile(r'^[A-Za-z0-9 ]+$')
 
+Q = ['Q a 1', 'Q b 1']          # block names of the second grid of the two-grid start grids
+JOBS = max(1, min(vf.NPROC, 8))
+
 SEEDS = {
     'empty': [],
     'pair': [('ar', RK[0]), ('ar', RK[1]), ('ab', U[0], RK[0]), ('ab', U[1], RK[1]), ('ac', U[0], U[1])],
@@ -29,6 +34,13 @@ SEEDS = {
     'ring': [('ar', RK[0]), ('ar', RK[1]), ('ab', U[0], RK[0]), ('ab', U[1], RK[1]), ('ab', U[2], RK[0]), ('ab', U[3], RK[1]),
              ('ac', U[0], U[1]), ('ac', U[1], U[2]), ('ac', U[2], U[3]), ('ac', U[3], U[0])],
 }
+# two-grid start grids: the main grid and a second one (built by `x` edits) with disjoint / overlapping block names
+SEEDS['pair+disjoint'] = SEEDS['pair'] + [('x', ('ar', RK[0])), ('x', ('ab', Q[0], RK[0], 1.0)), ('x', ('ab', Q[1], RK[0], 1.0)),
+                                          ('x', ('ac', Q[0], Q[1]))]
+# (the second grid of chain+overlap is too big for any block of the main grid: embed refuses on volume)
+SEEDS['chain+overlap'] = SEEDS['chain'] + [('x', ('ar', RK[1])), ('x', ('ab', U[1], RK[1], 600.0)), ('x', ('ab', Q[0], RK[1], 600.0)),
+                                           ('x', ('ac', U[1], Q[0]))]
+TWO_GRID = ('x', 'ad', 'em')
 
 
 def _impl():
@@ -36,17 +48,56 @@ def _impl():
     return t2grids
 
 
+class St(object):
+    """the grid under edit, and (two-grid cases) a second grid; `shared`: they hold common objects"""
+    __slots__ = ('main', 'other', 'shared')
+
+    def __init__(self, main, other=None):
+        self.main, self.other, self.shared = main, other, False
+
+    def second(self):
+        if self.other is None: self.other = _impl().t2grid()
+        return self.other
+
+
+# ----------------------------------------------------------------------------------------------
+# minc: naming functions (exactly the ones coq/C08/Drv.v knows) and geometry presets
+def _mb_z(name, level): return ('%dzz%s' % (level, name[3:]))[:5]
+def _mb_k(name, level): return str(level + 4) + name[1:]
+def _mr_i(name, level): return name
+def _mr_m(name, level): return 'M%d' % level + name[2:]
+MB = {'d': None, 'z': _mb_z, 'k': _mb_k}
+MR = {'d': None, 'i': _mr_i, 'm': _mr_m}
+FRACS = {0: [1.0], 1: [0.1, 0.9], 2: [0.05, 0.15, 0.8], 3: [0.02, 0.08, 0.2, 0.7], 4: [0.1, 0.2, 0.3, 0.2, 0.2]}
+ATMOS = 1.e25
+
+
+def inel_names(g):
+    """names of the blocks that fail minc's volume test 0 < volume < atmos_volume (evaluated HERE, from the
+    real volumes: the model takes the outcome of the test as an input)"""
+    return tuple(b.name for b in g.blocklist if not (0. < b.volume < ATMOS))
+
+
+def subgrid_fits(st, op):
+    """embed's first test, evaluated here from the real volumes (an input of the model)"""
+    try:
+        sub = sum(b.volume for b in st.second().blocklist)
+        host = st.main.block[op[2]].volume if op[2] in st.main.block else VOL
+        return int(sub < host)
+    except Exception: return 0
+
+
 # ----------------------------------------------------------------------------------------------
 # operations: python tuples; applied to the implementation through public methods only
-def apply_op(g, op):
-    """Apply one edit to the real t2grid.  Returns the grid to continue with."""
+def apply_edit(g, op):
+    """one of the eleven single-grid edits, or minc, on grid `g`"""
     T = _impl()
     k = op[0]
     if k == 'ar': g.add_rocktype(T.rocktype(op[1]))
     elif k == 'dr': g.delete_rocktype(op[1])
     elif k == 'cr': g.clean_rocktypes()
     elif k == 'rr': g.rename_rocktype(op[1], op[2])
-    elif k == 'ab': g.add_block(T.t2block(op[1], VOL, g.rocktype[op[2]]))
+    elif k == 'ab': g.add_block(T.t2block(op[1], op[3] if len(op) > 3 else VOL, g.rocktype[op[2]]))
     elif k == 'db': g.delete_block(op[1])
     elif k == 'dm':
         names = list(op[1])
@@ -58,8 +109,43 @@ def apply_op(g, op):
         bns = list(op[1]) or None
         cns = [tuple(c) for c in op[2]] or None
         g.reorder(block_names=bns, connection_names=cns)
+    elif k == 'mi':
+        # ('mi', naming, levels, selection, names failing the volume test (for the model), call form)
+        naming, levels, sel, form = op[1], op[2], list(op[3]), op[5]
+        if not sel: blocks = None if form % 2 else []
+        elif form == 2 and all(n in g.block for n in sel): blocks = [g.block[n] for n in sel]
+        else: blocks = sel
+        kw = {}
+        if MB[naming[0]] is not None: kw['matrix_blockname'] = MB[naming[0]]
+        if MR[naming[1]] is not None: kw['minc_rockname'] = MR[naming[1]]
+        planes = 1 + levels % 3
+        g.minc(FRACS[levels], [50., 30., 40.][:planes], planes, blocks, **kw)
     else: raise RuntimeError('unknown op %r' % (op,))
-    return g
+
+
+def apply_op(st, op):
+    """Apply one edit to the real grid(s) of `st`."""
+    T = _impl()
+    k = op[0]
+    if k == 'x': apply_edit(st.second(), op[1])
+    elif k == 'ad':
+        o = st.second()
+        st.main = (o + st.main) if op[1] else (st.main + o)
+        st.shared = True
+    elif k == 'em':
+        # ('em', mode, host name, sub-grid block name, fits (for the model))
+        o = st.second()
+        if op[1] == 'o': blks = [st.main.block[op[2]], o.block[op[3]]]
+        else:
+            hv = st.main.block[op[2]].volume if op[2] in st.main.block else VOL
+            blks = [T.t2block(op[2], hv, None), T.t2block(op[3], 1.0, None)]
+        con = T.t2connection(blks, 1, [1.0, 2.0], 3.0, 0.0)
+        with contextlib.redirect_stdout(io.StringIO()):
+            res = st.main.embed(o, con)
+        if res is not None:
+            st.main = res; st.shared = True
+    else: apply_edit(st.main, op)
+    return st
 
 
 def hx(s): return s.encode('latin-1').hex()
@@ -70,6 +156,10 @@ def encode_op(op):
     if k in ('ar', 'dr', 'db'): return k + ',' + hx(op[1])
     if k == 'cr': return 'cr'
     if k in ('rr', 'ab', 'ac', 'dc'): return k + ',' + hx(op[1]) + ',' + hx(op[2])
+    if k == 'x': return 'x:' + encode_op(op[1])
+    if k == 'mi': return ','.join(['mi', op[1], str(op[2])] + [hx(n) for n in op[3]]) + ';' + ','.join(hx(n) for n in op[4])
+    if k == 'ad': return 'ad,%d' % op[1]
+    if k == 'em': return 'em,%s,%s,%s,%d' % ('o' if op[1] == 'o' else 'f', hx(op[2]), hx(op[3]), op[4])
     if k == 'dm': return ','.join(['dm'] + [hx(n) for n in op[1]])
     if k == 'rn': return ','.join(['rn'] + [hx(x) for kv in op[1] for x in kv])
     if k == 'ro': return ','.join(['ro'] + [hx(n) for n in op[1]]) + ';' + ','.join(hx(x) for c in op[2] for x in c)
@@ -80,6 +170,9 @@ def op_names(op):
     k = op[0]
     if k in ('ar', 'dr', 'db'): return [op[1]]
     if k in ('rr', 'ab', 'ac', 'dc'): return [op[1], op[2]]
+    if k == 'x': return op_names(op[1])
+    if k == 'mi': return list(op[3]) + list(op[4])
+    if k == 'em': return [op[2], op[3]]
     if k == 'dm': return list(op[1])
     if k == 'rn': return [x for kv in op[1] for x in kv]
     if k == 'ro': return list(op[1]) + [x for c in op[2] for x in c]
@@ -115,6 +208,11 @@ def dump(g):
     CD = ','.join('%s~%s=%s=%s~%s' % (k[0], k[1], _idx(cpos, v), v.block[0].name, v.block[1].name)
                   for k, v in g.connection.items())
     return 'R:%s;RD:%s;B:%s;BD:%s;C:%s;CD:%s' % (R, RD, B, BD, C, CD)
+
+
+def dump_st(st, dual):
+    if not dual: return dump(st.main)
+    return dump(st.main) + '#' + dump(st.second())
 
 
 def adler(s):
@@ -169,12 +267,32 @@ def rock_identity_ok(g):
 
 # ----------------------------------------------------------------------------------------------
 # classification of an edit relative to the pre-state: domain of the quantifier and finding keys
-def classify(g, op):
+def classify(st, op, other_consistent=True):
     """(in_domain, key): `in_domain` False when the edit's arguments are outside what the property
     quantifies over (a name map that is not one-to-one on the grid's blocks or collides with an
-    unrenamed block; a reorder list that is not a reordering).  `key` is the finding key a failure
-    of the statement right after this edit gets (call-site:input-class, DESIGN.md App. D)."""
+    unrenamed block; a reorder list that is not a reordering; a second grid that is itself not
+    consistent; an edit of the second grid after it was added to / embedded in the main one, which
+    edits the main grid's objects behind its back).  `key` is the finding key a failure of the
+    statement right after this edit gets (call-site:input-class, DESIGN.md App. D)."""
     k = op[0]
+    if k == 'x':
+        if st.shared: return False, 'operand-edited-after-sum'
+        return classify(St(st.second()), op[1])
+    g = st.main
+    if k == 'mi':
+        return True, ('minc:matrix-names-collide' if op[1][0] == 'z' else 'minc:any')
+    if k == 'ad':
+        o = st.second()
+        if not other_consistent: return False, '__add__:operand-not-consistent'
+        first, second = (o, g) if op[1] else (g, o)
+        for b in first.blocklist:
+            b2 = second.block.get(b.name)
+            if b2 is not None and b2 is not b and (b.connection_name or any(any(x is b for x in c.block) for c in first.connectionlist)):
+                return True, 'add_block:replaces-connected-block'
+        return True, '__add__:no-connected-block-replaced'
+    if k == 'em':
+        if not other_consistent: return False, 'embed:operand-not-consistent'
+        return True, ('embed:own-block-objects' if op[1] == 'o' else 'embed:foreign-block-objects')
     if k == 'rn':
         m = dict(op[1])
         present = [b.name for b in g.blocklist]
@@ -223,40 +341,74 @@ class Outcome(object):
         self.domain_exits, self.strong_rock_breaks = [], 0
 
 
-def run_impl_sequence(g, ops, hash_mode=False, oracle=True):
-    """Apply `ops` to the real grid `g`; after each step record the canonical dump and evaluate the
-    statement.  Stops at the first exception (like the model).  Only the FIRST break of the statement
-    in a sequence is reported (later ones are consequences)."""
+class Watch(object):
+    """the statement evaluated after every step of one sequence: only the FIRST break is reported
+    (later ones are consequences); breaks caused by an edit outside the quantifier are counted apart"""
+    __slots__ = ('consistent', 'other_ok', 'strong', 'fail', 'domain_exits', 'strong_breaks')
+
+    def __init__(self, st):
+        self.consistent = not inv_violations(st.main)
+        self.other_ok = st.other is None or not inv_violations(st.other)
+        self.strong, self.fail, self.domain_exits, self.strong_breaks = True, None, [], 0
+
+    def copy(self):
+        w = Watch.__new__(Watch)
+        w.consistent, w.other_ok, w.strong, w.fail = self.consistent, self.other_ok, self.strong, self.fail
+        w.domain_exits, w.strong_breaks = list(self.domain_exits), self.strong_breaks
+        return w
+
+    def before(self, st, op):
+        return classify(st, op, self.other_ok) if self.consistent else (True, None)
+
+    def after(self, st, op, t, dom, key):
+        if op[0] == 'x' and self.other_ok and not st.shared:
+            # the second grid is a t2grid under edit like any other until it is added / embedded
+            v = inv_violations(st.other)
+            if v:
+                self.other_ok = False
+                if self.consistent and dom and self.fail is None: self.fail = (t, key, v)
+        if self.consistent:
+            v = inv_violations(st.main)
+            if v:
+                self.consistent = False
+                if dom:
+                    if self.fail is None: self.fail = (t, key, v)
+                else: self.domain_exits.append(key)
+            elif self.strong and not rock_identity_ok(st.main):
+                self.strong = False; self.strong_breaks += 1
+
+
+def is_dual(ops):
+    return any(o[0] in TWO_GRID for o in ops)
+
+
+def run_impl_sequence(st, ops, hash_mode=False, dual=None):
+    """Apply `ops` to the real grid(s) `st`; after each step record the canonical dump and evaluate the
+    statement.  Stops at the first exception (like the model)."""
     out = Outcome()
-    consistent = oracle and not inv_violations(g)
-    strong = True
+    if dual is None: dual = is_dual(ops) or st.other is not None
+    w = Watch(st)
     for t, op in enumerate(ops):
-        dom, key = classify(g, op) if consistent else (True, None)
+        dom, key = w.before(st, op)
         try:
-            g = apply_op(g, op)
+            apply_op(st, op)
         except Exception as e:
             out.error = (t, exn_name(e))
             out.obs.append('E:' + exn_name(e))
-            return out
+            break
         out.steps += 1
-        d = dump(g)
+        d = dump_st(st, dual)
         out.obs.append(adler(d) if hash_mode else d)
-        if consistent:
-            v = inv_violations(g)
-            if v:
-                consistent = False
-                if dom: out.fail = (t, key, v)
-                else: out.domain_exits.append(key)
-            elif strong and not rock_identity_ok(g):
-                strong = False; out.strong_rock_breaks += 1
+        w.after(st, op, t, dom, key)
+    out.fail, out.domain_exits, out.strong_rock_breaks = w.fail, w.domain_exits, w.strong_breaks
     return out
 
 
 def build_seed(ops):
     T = _impl()
-    g = T.t2grid()
-    for op in ops: g = apply_op(g, op)
-    return g
+    st = St(T.t2grid())
+    for op in ops: apply_op(st, op)
+    return st
 
 
 # ----------------------------------------------------------------------------------------------
@@ -275,9 +427,10 @@ def injective_maps(present, universe):
     return res
 
 
-def alphabet(g, n):
-    """the edits tried at a node of the exhaustive tree whose current grid is `g` (n: a running
+def alphabet(st, n):
+    """the edits tried at a node of the exhaustive tree whose current state is `st` (n: a running
     number used to alternate the equivalent call forms)"""
+    g = st.main
     ops = []
     present = list(dict.fromkeys(b.name for b in g.blocklist))
     absent = [u for u in U if u not in g.block]
@@ -326,6 +479,26 @@ def alphabet(g, n):
         if len(keys) >= 2: ops.append(('ro', (), tuple(keys[:-1])))                   # drops one (outside)
     if len(present) >= 2: ops.append(('ro', tuple(present[:-1]), ()))                 # drops one (outside)
     if present: ops.append(('ro', (present[0], 'zzzzz'), ()))                         # unknown name
+    if st.other is not None:
+        # grid-combining edits (two-grid start grids only): minc in its call forms, both sums, embed with the grids'
+        # own block objects / with foreign objects of the same names / refused (too big, unknown block)
+        inel = inel_names(g)
+        ops.append(('mi', 'dd', 1, (), inel, n % 2))
+        if present:
+            ops.append(('mi', 'dd', 2, (present[0],), inel, 2 * (n % 2)))
+            ops.append(('mi', 'zi', 1, tuple(present[:2]), inel, 0))        # custom naming: both blocks get matrix block '1zz 1'
+            ops.append(('mi', 'km', 1, (present[-1], 'zzzzz'), inel, 0))    # unknown block after a good one
+        ops.append(('mi', 'dd', 0, (), inel, 0))                            # one volume fraction: refused
+        ops.append(('ad', 0)); ops.append(('ad', 1))
+        onames = [b.name for b in st.other.blocklist]
+        if present and onames:
+            for mode in ('o', 'f'):
+                op = ('em', mode, present[0], onames[0])
+                ops.append(op + (subgrid_fits(st, op),))
+            op = ('em', 'o', present[-1], onames[-1])
+            ops.append(op + (subgrid_fits(st, op),))
+            op = ('em', 'f', present[0], 'zzzzz')                           # the connection names a block of neither grid
+            ops.append(op + (subgrid_fits(st, op),))
     return ops
 
 
@@ -371,7 +544,7 @@ def record(stats, case, ops_run, out, line):
 
 
 def compare(stats, cname, exe, lines, cases, expects):
-    if not lines: return
+    if not lines or not exe: return          # exe None: oracle-only sweep (deep search)
     outs = vf.run_driver(exe, lines, shards=1)
     for l, c, e, o in zip(lines, cases, expects, outs):
         if o != e:
@@ -386,44 +559,56 @@ def compare(stats, cname, exe, lines, cases, expects):
 
 
 def exhaustive_worker(args):
-    """enumerate every sequence of exactly `depth` edits (or shorter when an edit raises) below one
-    first-level branch of one start grid; every prefix is observed after every step"""
+    """enumerate every sequence of exactly `depth` edits (or shorter when an edit raises) below some
+    first-level branches of one start grid; every prefix is observed after every step.  A node of the
+    tree re-executes its prefix on a fresh start grid (the real object cannot be cloned cheaply) but
+    dumps and checks only the step it adds: its ancestors did the earlier ones."""
     seedname, depth, first_idx, exe = args
     stats = Stats()
     seed_ops = SEEDS[seedname]
     k = len(seed_ops)
+    dual = is_dual(seed_ops)
+    head = '%s%d\t' % ('D' if dual else 'F', k) + '\t'.join(encode_op(o) for o in seed_ops)
     lines, cases, expects = [], [], []
 
     def flush():
         compare(stats, 'exhaustive', exe, lines, cases, expects)
         del lines[:], cases[:], expects[:]
 
-    def leaf(ops):
-        g = build_seed(seed_ops)
-        out = run_impl_sequence(g, ops)
+    def leaf(ops, encs, obs, w, error):
+        out = Outcome()
+        out.obs, out.error, out.steps = obs, error, len(ops) - (1 if error else 0)
+        out.fail, out.domain_exits, out.strong_rock_breaks = w.fail, w.domain_exits, w.strong_breaks
         case = {'init': {'kind': 'seed', 'name': seedname}, 'ops': [list(o) for o in ops]}
-        line = 'F%d\t' % k + '\t'.join(encode_op(o) for o in list(seed_ops) + list(ops))
+        line = head + ''.join('\t' + e for e in encs)
         record(stats, case, ops, out, line)
-        lines.append(line); cases.append(case); expects.append('|'.join(out.obs))
-        if len(stats.samples) < 3 and len(ops) == depth and not out.error and stats.seq % 97 == 3:
-            stats.samples.append({'start': seedname, 'ops': [list(o) for o in ops], 'final_dump': out.obs[-1]})
+        lines.append(line); cases.append(case); expects.append('|'.join(obs))
+        if len(stats.samples) < 3 and len(ops) == depth and not error and stats.seq % 97 == 3:
+            stats.samples.append({'start': seedname, 'ops': [list(o) for o in ops], 'final_dump': obs[-1]})
         if len(lines) >= 20000: flush()
 
-    def rec(prefix):
-        # current grid after `prefix` (re-executed from the start grid: the real object cannot be cloned cheaply)
-        g = build_seed(seed_ops)
-        try:
-            for op in prefix: g = apply_op(g, op)
-        except Exception:
-            leaf(prefix); return             # the sequence ends at the first exception
-        if len(prefix) == depth:
-            leaf(prefix); return
-        alpha = alphabet(g, len(prefix))
+    def node(prefix, encs, obs, w):
+        st = build_seed(seed_ops)
+        for op in prefix[:-1]: apply_op(st, op)          # did not raise when the parent node ran it
+        if prefix:
+            op, t = prefix[-1], len(prefix) - 1
+            w = w.copy()
+            dom, key = w.before(st, op)
+            try: apply_op(st, op)
+            except Exception as e:
+                leaf(prefix, encs, obs + ['E:' + exn_name(e)], w, (t, exn_name(e))); return   # the sequence ends at the first exception
+            obs = obs + [dump_st(st, dual)]
+            w.after(st, op, t, dom, key)
+            if len(prefix) == depth:
+                leaf(prefix, encs, obs, w, None); return
+        else:
+            w = Watch(st)
+        alpha = alphabet(st, len(prefix))
         if not prefix:
             alpha = [alpha[i] for i in first_idx if i < len(alpha)]
-        for op in alpha: rec(prefix + [op])
+        for op in alpha: node(prefix + [op], encs + [encode_op(op)], obs, w)
 
-    rec([])
+    node([], [], [], None)
     flush()
     return stats
 
@@ -468,8 +653,59 @@ PROFILES = {   # p_invalid: malformed / failing call; p_defect: calls in the cla
 }
 
 
-def random_op(rng, g, geo_lists, prof):
+def other_grid(params, prefix, scale):
+    """the second grid of a two-grid case: a small fromgeo grid whose blocks are renamed (no name in common with
+    the main grid unless `prefix` is empty) and shrunk so that it fits into a block of the main grid"""
+    _, o = make_geo_grid(params)
+    if prefix:
+        m = dict((b.name, prefix + b.name[len(prefix):]) for b in o.blocklist)
+        if len(set(m.values())) == len(m): o.rename_blocks(m, fix_blocknames=False)
+    for b in o.blocklist: b.volume = b.volume * scale
+    return o
+
+
+def random_combine_op(rng, st, prof):
+    """minc / __add__ / embed / an edit of the second grid (two-grid cases only)"""
+    g, o = st.main, st.second()
+    names = [b.name for b in g.blocklist]
+    k = rng.choice(['mi'] * 5 + ['ad'] * 2 + ['em'] * 4 + ['x'] * 2)
+    if k == 'mi':
+        inel = inel_names(g)
+        naming = rng.choice(['dd'] * 5 + ['kd', 'dm', 'di', 'km', 'zd'])
+        levels = rng.choice([1, 1, 2, 2, 3, 4, 0] if rng.random() < prof['p_invalid'] + 0.02 else [1, 1, 2, 2, 3, 4])
+        style = rng.choice(['all', 'some', 'some', 'some', 'twice', 'unknown'] if len(names) <= 40 else ['some', 'some', 'some', 'twice'])
+        if style == 'all' or not names: sel = ()
+        else:
+            sel = tuple(rng.sample(names, min(len(names), rng.choice([1, 2, 3, 6]))))
+            if style == 'twice': sel = sel + sel[:1]
+            if style == 'unknown' and rng.random() < 0.5: sel = sel + ('nope1',)
+        return ('mi', naming, levels, sel, inel, rng.randint(0, 2))
+    if k == 'ad': return ('ad', rng.randint(0, 1))
+    if k == 'em':
+        onames = [b.name for b in o.blocklist]
+        if not names or not onames: return ('ad', 0)
+        sub = sum(b.volume for b in o.blocklist)
+        hosts = [b.name for b in g.blocklist if sub < b.volume < ATMOS] or names
+        op = ('em', rng.choice(['o', 'f', 'f']), rng.choice(hosts if rng.random() < 0.85 else names), rng.choice(onames))
+        if rng.random() < prof['p_invalid']: op = op[:3] + ('nope2',)
+        return op + (subgrid_fits(st, op),)
+    # an edit of the second grid: builds it further before a sum; afterwards it edits shared objects (outside the
+    # quantifier, but the model must still agree with the implementation on what happens to BOTH grids)
+    onames = [b.name for b in o.blocklist]
+    rocks = [r.name for r in o.rocktypelist]
+    kk = rng.choice(['ab', 'ac', 'db', 'rn', 'dc'])
+    if kk == 'ab' and rocks: return ('x', ('ab', fresh_name(rng, set(o.block) | set(g.block)), rng.choice(rocks), 1.0))
+    if kk == 'ac' and len(onames) >= 2: return ('x', ('ac',) + tuple(rng.sample(onames, 2)))
+    if kk == 'db' and onames: return ('x', ('db', rng.choice(onames)))
+    if kk == 'dc' and o.connection: return ('x', ('dc',) + rng.choice(list(o.connection.keys())))
+    if kk == 'rn' and onames: return ('x', ('rn', ((rng.choice(onames), fresh_name(rng, set(o.block) | set(g.block))),), 0))
+    return ('x', ('cr',))
+
+
+def random_op(rng, st, geo_lists, prof):
     """one edit, biased towards calls that do something on the current grid"""
+    if st.other is not None and rng.random() < 0.12: return random_combine_op(rng, st, prof)
+    g = st.main
     names = list(dict.fromkeys(b.name for b in g.blocklist))
     rocks = [r.name for r in g.rocktypelist]
     keys = list(g.connection.keys())
@@ -574,61 +810,78 @@ def random_op(rng, g, geo_lists, prof):
     return ('cr',)
 
 
+def random_case_start(rng, sizes):
+    """start of one random case: (init record, St, geometry lists)"""
+    size = rng.choice(sizes)
+    if size == 'small': params = (rng.randint(1, 3), rng.randint(1, 2), rng.randint(1, 3), rng.choice([0, 1, 2]))
+    elif size == 'medium': params = (rng.randint(2, 5), rng.randint(2, 4), rng.randint(1, 3), rng.choice([0, 1, 2]))
+    else:
+        at = rng.choice([0, 1, 2])
+        while True:
+            params = (rng.randint(4, 8), rng.randint(4, 8), rng.randint(2, 5), at)
+            nb = params[0] * params[1] * params[2] + (1 if at == 0 else params[0] * params[1] if at == 1 else 0)
+            if 100 <= nb <= 200: break
+    init = {'kind': 'geo', 'params': list(params)}
+    if rng.random() < 0.3:
+        # a two-grid case: minc / __add__ / embed are in the alphabet
+        init['other'] = [[rng.randint(1, 2), rng.randint(1, 2), rng.randint(1, 3), rng.choice([0, 2, 2])],
+                         rng.choice(['Q', 'zz', 'K9', 'Q', '']), rng.choice([1e-3, 1e-3, 1e-5, 1.0])]
+        nzero = rng.choice([0, 0, 1, 2])
+        geo, g = make_geo_grid(params)
+        init['zero_volume'] = sorted(rng.sample([b.name for b in g.blocklist], min(nzero, len(g.blocklist))))
+    return init
+
+
 def random_worker(args):
     seed, ncases, maxlen, exe, sizes = args
     rng = random.Random(seed)
     stats = Stats()
     lines, cases, expects = [], [], []
     for ci in range(ncases):
-        size = rng.choice(sizes)
-        if size == 'small': params = (rng.randint(1, 3), rng.randint(1, 2), rng.randint(1, 3), rng.choice([0, 1, 2]))
-        elif size == 'medium': params = (rng.randint(2, 5), rng.randint(2, 4), rng.randint(1, 3), rng.choice([0, 1, 2]))
-        else:
-            at = rng.choice([0, 1, 2])
-            while True:
-                params = (rng.randint(4, 8), rng.randint(4, 8), rng.randint(2, 5), at)
-                nb = params[0] * params[1] * params[2] + (1 if at == 0 else params[0] * params[1] if at == 1 else 0)
-                if 100 <= nb <= 200: break
-        geo, g = make_geo_grid(params)
+        init = random_case_start(rng, sizes)
+        params = tuple(init['params'])
+        geo, st = start_state(init, with_geo=True)
+        g = st.main
+        dual = st.other is not None
         geo_lists = (list(geo.block_name_list), [tuple(c) for c in geo.block_connection_name_list])
-        prefix = grid_as_ops(g)
+        prefix = grid_as_ops(g) + ([('x', o) for o in grid_as_ops(st.other)] if dual else [])
         nblk = len(g.blocklist)
         hash_mode = nblk > 24
         n = rng.randint(1, maxlen) if rng.random() < 0.3 else maxlen
         # the ops are generated while the implementation executes them (the generator looks at the current grid)
         out = Outcome()
         ops = []
-        d0 = dump(g)
+        d0 = dump_st(st, dual)
         out.obs.append(adler(d0) if hash_mode else d0)          # the state the prefix must rebuild
-        consistent = not inv_violations(g)
+        w = Watch(st)
         profname = rng.choice(['clean'] * 6 + ['mixed'] * 3 + ['hostile'] * 1)
         prof = PROFILES[profname]
         stats.lens['profile:' + profname] += 1
+        if dual: stats.lens['two-grid cases'] += 1
         for t in range(n):
-            op = random_op(rng, g, geo_lists if t < 3 else None, prof)
+            op = random_op(rng, st, geo_lists if t < 3 else None, prof)
             if any(not NAME_OK.match(x) for x in op_names(op)): continue
+            if op[0] == 'mi' and len(st.main.blocklist) > 400: continue      # keep MINC'd grids from growing without bound
             ops.append(op)
-            dom, key = classify(g, op) if consistent else (True, None)
-            if consistent: stats.keys[key] += 1
-            try: g = apply_op(g, op)
+            dom, key = w.before(st, op)
+            if w.consistent: stats.keys[key] += 1
+            try: apply_op(st, op)
             except Exception as e:
                 out.error = (len(ops) - 1, exn_name(e)); out.obs.append('E:' + exn_name(e)); break
             out.steps += 1
-            d = dump(g)
+            d = dump_st(st, dual)
             out.obs.append(adler(d) if hash_mode else d)
-            if consistent:
-                v = inv_violations(g)
-                if v:
-                    consistent = False
-                    if dom: out.fail = (len(ops) - 1, key, v)
-                    else: out.domain_exits.append(key)
-        case = {'init': {'kind': 'geo', 'params': list(params)}, 'ops': [list(o) for o in ops]}
-        line = '%s%d\t' % ('H' if hash_mode else 'F', len(prefix) - 1) + '\t'.join(encode_op(o) for o in prefix + ops)
+            w.after(st, op, len(ops) - 1, dom, key)
+        out.fail, out.domain_exits, out.strong_rock_breaks = w.fail, w.domain_exits, w.strong_breaks
+        case = {'init': init, 'ops': [list(o) for o in ops]}
+        line = '%s%d\t' % ({(0, 0): 'F', (0, 1): 'H', (1, 0): 'D', (1, 1): 'E'}[(int(dual), int(hash_mode))], len(prefix) - 1) + \
+               '\t'.join(encode_op(o) for o in prefix + ops)
         record(stats, case, ops, out, line)
         stats.lens['blocks:%d' % (10 * (nblk // 10))] += 1
         lines.append(line); cases.append(case); expects.append('|'.join(out.obs))
         if len(stats.samples) < 2 and nblk <= 8 and len(ops) >= 5:
-            stats.samples.append({'start': 'fromgeo(rectangular %dx%dx%d, atmos_type %d): %d blocks' % (params + (nblk,)),
+            stats.samples.append({'start': 'fromgeo(rectangular %dx%dx%d, atmos_type %d): %d blocks' % (params + (nblk,)) +
+                                  (' + a second grid of %d blocks' % len(st.second().blocklist) if dual else ''),
                                   'ops': [list(o) for o in ops[:8]], 'n_ops': len(ops), 'ended': out.error[1] if out.error else 'completed'})
     compare(stats, 'random-on-fromgeo-grids', exe, lines, cases, expects)
     return stats
@@ -640,9 +893,9 @@ def shrink_failure(case, key):
     ops = [tuple(_t(o)) for o in case['ops']]
 
     def fails(ops_):
-        try: g = start_grid(case['init'])
+        try: st = start_state(case['init'])
         except Exception: return False
-        out = run_impl_sequence(g, ops_)
+        out = run_impl_sequence(st, ops_)
         return out.fail is not None and out.fail[1] == key
     i = 0
     budget = 300
@@ -658,15 +911,26 @@ def shrink_failure(case, key):
 def _t(o):
     """JSON round trip turns tuples into lists: restore the nesting apply_op expects"""
     o = list(o)
-    if o[0] == 'rn': o[1] = tuple(tuple(kv) for kv in o[1])
+    if o[0] == 'x': o[1] = _t(o[1])
+    elif o[0] == 'mi': o[3] = tuple(o[3]); o[4] = tuple(o[4])
+    elif o[0] == 'rn': o[1] = tuple(tuple(kv) for kv in o[1])
     elif o[0] == 'ro': o[1] = tuple(o[1]); o[2] = tuple(tuple(c) for c in o[2])
     elif o[0] == 'dm': o[1] = tuple(o[1])
     return tuple(o)
 
 
-def start_grid(init):
-    if init['kind'] == 'seed': return build_seed(SEEDS[init['name']])
-    if init['kind'] == 'geo': return make_geo_grid(tuple(init['params']))[1]
+def start_state(init, with_geo=False):
+    if init['kind'] == 'seed':
+        st = build_seed(SEEDS[init['name']])
+        return (None, st) if with_geo else st
+    if init['kind'] == 'geo':
+        geo, g = make_geo_grid(tuple(init['params']))
+        st = St(g)
+        if 'other' in init:
+            p2, prefix, scale = init['other']
+            st.other = other_grid(tuple(p2), prefix, scale)
+            for n in init.get('zero_volume', []): g.block[n].volume = 0.0
+        return (geo, st) if with_geo else st
     raise RuntimeError('unknown start %r' % (init,))
 
 
@@ -675,22 +939,28 @@ REQUIRED = ('by-name lookups and ordered lists hold the same objects under uniqu
             'connections mentioning it; every block.rocktype.name is registered')
 
 
-def sweep(ctx, exe, plan_exh, n_random, maxlen, sizes, label=''):
-    """run the exhaustive and random sweeps (sharded over processes); exe may be None (oracle only)"""
+SHARDS = 16      # fixed: the cases generated do not depend on the number of processes
+
+
+def sweep(ctx, exe, plan_exh, n_random, maxlen, sizes, label='', meanwhile=None):
+    """run the exhaustive and random sweeps (sharded over <= 8 processes); exe may be None (oracle only);
+    `meanwhile` runs in this process while the workers are busy"""
     import multiprocessing as mp
     jobs = []
     for seedname, depth in plan_exh:
         nf = n_first_level(seedname)
-        nshard = min(vf.NPROC * 2, nf)
+        nshard = min(SHARDS if depth >= 3 else 4, nf)
         for s in range(nshard):
-            jobs.append(('e', (seedname, depth, list(range(s, nf, nshard)), exe)))
-    per = max(1, n_random // (vf.NPROC * 2))
+            jobs.append(('e', depth, (seedname, depth, list(range(s, nf, nshard)), exe)))
+    per = max(1, (n_random + SHARDS - 1) // SHARDS)
     nj = (n_random + per - 1) // per
     for j in range(nj):
-        jobs.append(('r', (ctx.rng.getrandbits(48), min(per, n_random - j * per), maxlen, exe, sizes)))
+        jobs.append(('r', 2.5, (ctx.rng.getrandbits(48), min(per, n_random - j * per), maxlen, exe, sizes)))
+    jobs.sort(key=lambda j: -j[1])          # the long jobs first (stable: the order is deterministic)
     total = {'e': Stats(), 'r': Stats()}
-    with mp.Pool(vf.NPROC) as pool:
-        res = [(kind, pool.apply_async(exhaustive_worker if kind == 'e' else random_worker, (a,))) for kind, a in jobs]
+    with mp.Pool(JOBS) as pool:
+        res = [(kind, pool.apply_async(exhaustive_worker if kind == 'e' else random_worker, (a,))) for kind, _, a in jobs]
+        if meanwhile is not None: meanwhile()
         for kind, r in res: total[kind].merge(r.get(timeout=7200))
     for kind, cname, oname in (('e', 'exhaustive-short-sequences', 'Inv-after-every-step(exhaustive)'),
                                ('r', 'random-sequences-on-fromgeo-grids', 'Inv-after-every-step(random)')):
@@ -715,6 +985,7 @@ def sweep(ctx, exe, plan_exh, n_random, maxlen, sizes, label=''):
                 try: case = shrink_failure(case, key)
                 except Exception: traceback.print_exc()
             ctx.failure(oname, key, case, '; '.join(v), REQUIRED)
+    ctx.log('sweep%s: %d exhaustive + %d random sequences' % (label, total['e'].seq, total['r'].seq))
     return total
 
 
@@ -849,10 +1120,15 @@ def run(ctx):
                 'rename_blocks with EVERY one-to-one map from present names into the 4-name universe that avoids unrenamed blocks (swaps, cycles, chains included), '
                 'reorder with block permutations / connection permutations with reversals, plus malformed calls}; '
                 '(2) random sequences up to length 60 on t2grid().fromgeo(mulgrid().rectangular(...)) grids of 1..200 blocks (all atmosphere types), generator '
-                'biased to valid calls. A case is one sequence; distinct by its encoded op list (start grid included); non-trivial: every counted sequence has at least one edit')
+                'biased to valid calls; (3) the grid-combining edits: two further start grids hold a SECOND grid (block names disjoint from / overlapping the main one) and their '
+                'alphabet adds minc (default and custom naming functions, 0..2 levels, all blocks / a selection / an unknown block), main + other, other + main and embed '
+                '(with the grids\' own block objects, with foreign objects of the same names, refused); 30% of the random cases carry a second fromgeo grid and draw minc '
+                '(1..4 levels, five naming pairs, selections with repeats, zero-volume and atmosphere blocks), __add__, embed and edits of the second grid; both grids are '
+                'compared after every step. A case is one sequence; distinct by its encoded op list (start grid included); non-trivial: every counted sequence has at least one edit')
     ctx.trusted += ['Coq 8.16.1 kernel (coqc)',
-                    'hand-written model coq/C08/GridEdit.v of the t2grid methods (objects as ids + field maps, dict = insertion-ordered association list); '
-                    'its agreement with t2grids.py is TESTED on this run (canonical dump after every step), not proved',
+                    'hand-written model coq/C08/GridEdit.v of the t2grid methods (objects as ids + field maps, dict = insertion-ordered association list; '
+                    'minc without its geometry: the volume test 0 < volume < atmos_volume and embed\'s "sub-grid fits" test are inputs of the model, evaluated '
+                    'by this harness from the real volumes); its agreement with t2grids.py is TESTED on this run (canonical dump after every step), not proved',
                     'extraction: ExtrOcamlBasic + ExtrOcamlString, OCaml 4.13.1, ocaml/main.ml; PTBase.Wire helpers',
                     'the Python statement of the invariant in tools/props/C08.py (inv_violations) and its classifier of inputs (classify)']
     ctx.assumptions += ['arguments are well-formed: add_block receives a block whose rock type object is grid.rocktype[name]; add_connection receives the '
@@ -860,18 +1136,21 @@ def run(ctx):
                         '(then rename_blocks(fix_blocknames=True) and (False) coincide: both are exercised on the implementation)',
                         'an edit that raises ends the sequence (the state after an exception is not covered)',
                         '"rock type registered" is read by name (block.rocktype.name is a key of grid.rocktype), as t2data/t2grid themselves use it',
-                        '__add__, embed and minc are not in the Coq model: the statement is evaluated on the real grid they leave or return (oracle only); t2data-level readers are not covered']
+                        'the operands of __add__ / embed are consistent grids; after the sum the operands are not edited any more (the result holds their objects: '
+                        'editing an operand edits the result behind its back; such edits are run for the model/implementation comparison and not held against the statement); '
+                        'minc: the MINC geometry (proximity function, its inversion) is valid and is not modelled; t2data-level readers are not covered']
     ctx.stage()
     ok = ctx.coq_build()
+    ctx.log('coq build done: %d theorems' % len(ctx.theorems))
     exe = vf.build_driver(ctx)
+    ctx.log('driver built')
     if ctx.thorough:
-        plan = [('empty', 4), ('pair', 3), ('chain', 3), ('ring', 3)]
+        plan = [('empty', 4), ('pair', 3), ('chain', 3), ('ring', 3), ('pair+disjoint', 3), ('chain+overlap', 3)]
         nrand, sizes = 3000, ['small'] * 5 + ['medium'] * 3 + ['large'] * 2
     else:
-        plan = [('empty', 3), ('pair', 3), ('chain', 2), ('ring', 2)]
+        plan = [('empty', 3), ('pair', 3), ('chain', 2), ('ring', 2), ('pair+disjoint', 2), ('chain+overlap', 2)]
         nrand, sizes = 320, ['small'] * 6 + ['medium'] * 3 + ['large']
-    tot = sweep(ctx, exe, plan, nrand, 60, sizes)
-    extended_edits(ctx, 1500 if ctx.thorough else 250)
+    tot = sweep(ctx, exe, plan, nrand, 60, sizes, meanwhile=lambda: extended_edits(ctx, 1500 if ctx.thorough else 200))
     ctx.extra['exhaustive'] = True
     ctx.extra['input_distribution'] = {
         'exhaustive': {'sequences': tot['e'].seq, 'op_kinds': dict(tot['e'].opk), 'endings': dict(tot['e'].endk)},
@@ -892,15 +1171,15 @@ def replay(ctx, data):
         key = data.get('finding_key')
         try: ctx.seed = int(data.get('seed', ctx.seed))
         except Exception: pass
-        extended_edits(ctx, 250)
+        extended_edits(ctx, 200)
         hits = [r for r in ctx.new_failures if r['key'] == key] + ([ctx.findings_seen[key]] if key in ctx.findings_seen else [])
         for r in hits[:1]: print('replay: %s -> %s' % (json.dumps(r['input'], default=str)[:500], r['observed']))
         if not hits: print('replay: grid-combining sweep finds the grid consistent after every %s case' % key)
         return bool(hits)
     if not case or 'ops' not in case: return True
-    g = start_grid(case['init'])
+    st = start_state(case['init'])
     ops = [_t(o) for o in case['ops']]
-    out = run_impl_sequence(g, ops)
+    out = run_impl_sequence(st, ops)
     print('replay: start %s, %d edit(s): %s' % (json.dumps(case['init']), len(ops), json.dumps(case['ops'])[:600]))
     if out.fail:
         t, key, v = out.fail
